@@ -448,6 +448,25 @@ def _constructors(name, cls):
     except Exception:
         pass
     out.append(lambda: cls())
+
+    def _mix():
+        import kappadata.collators as C
+        return C.KDMixCollator(mixup_alpha=0.8, mixup_p=1.0)
+
+    def _leaf():
+        import kappadata.transforms as T
+        return T.KDRandomCrop(size=4)
+    # generic constructor shapes of the package's composites
+    out += [
+        lambda: cls(collator=_mix(), dataset_mode="x class"),
+        lambda: cls(collators=[_mix()], dataset_mode="x class"),
+        lambda: cls(dataset_mode="x class", return_ctx=False),
+        lambda: cls(transform=_leaf()),
+        lambda: cls(transforms=[_leaf()]),
+        lambda: cls(transform=_leaf(), p=0.5),
+        lambda: cls(patch_size=4, transform=_leaf()),
+        lambda: cls(p=0.5),
+    ]
     return out
 
 
